@@ -357,4 +357,37 @@ func init() {
 				Quick: map[string]int{"W": 1, "R": 1, "CLOSE": 0, "PB": 2}, Thorough: map[string]int{"W": 2, "R": 2, "CLOSE": 0, "PB": 2}, MaxSteps: 3_000_000},
 		},
 	})
+
+	// ---------------------------------------------------------------- C04 (translation validation)
+	c04Variants := func() []map[string]int {
+		var v []map[string]int
+		for fn := 0; fn <= 16; fn++ {
+			for neg := 0; neg <= 1; neg++ {
+				if (fn >= 3 && fn <= 6 || fn >= 15) && neg == 1 {
+					continue // contexts without a step parameter
+				}
+				v = append(v, map[string]int{"FN": fn, "NEG": neg})
+			}
+		}
+		return v
+	}
+	register(&checkSpec{
+		ID:    "C04",
+		Level: "translation_validation",
+		Rule:  "programs = the 17 context templates of harness/tv/c04/range.xgo (for-in, for-range, for-range without variable, list/map comprehension, existence comprehension, with and without filter, omitted start/step, operands as parameters, expressions and literals), compiled by the compiler of the current tree; inputs = start, end in [-R,R], step in [1,S] or [-S,-1] as SMT variables; the emitted Go function is executed symbolically and compared with the documented sequence",
+		Assumptions: []string{
+			"translation validation of the listed templates, not of every program: a lowering bug that none of these context shapes exercises is not found",
+			"bound: |start|,|end| <= R, 0 < |step| <= S (wrap-around near MaxInt is outside); instruction budget per path; //line directives removed from the emitted file",
+			"the emitted code runs the real github.com/qiniu/x/xgo range iterator",
+		},
+		Prepare: func(tier string) error { _, err := prepareTV("C04"); return err },
+		Extra: func(tier string, ev map[string]any) []Violation {
+			ev["programs"] = 17
+			return nil
+		},
+		Harnesses: []harnessSpec{
+			{Name: "VxC04", ExtDir: tvDir("C04"), Quick: map[string]int{"R": 4, "S": 3, "KF_NEGSTEP": 0}, Thorough: map[string]int{"R": 8, "S": 4, "KF_NEGSTEP": 0},
+				Variants: c04Variants(), MaxSteps: 200_000},
+		},
+	})
 }
